@@ -54,11 +54,15 @@ TRUSTED = [
     'is gen_main2.render_program2, and `is_admissible2` is evaluated on every (program, permutation) pair the harness produces',
 ]
 ASSUMPTIONS = [
-    'GenOrder2: Main2_order_invariant (for `build2`) holds under the decidable side condition order_ok2 p = true (computed '
-    'from the state after construction, zone by zone: what one sector\'s _GenerateEquations looks up by name in another '
-    'sector is not created by a third one; two sectors never define the same variable in competing ways; every call is '
-    'inside the sector-wise reformulation, `uncovered2 p = 0`); evaluated on every generated well-formed program, the '
-    'counts per shape are in extra.order2_model',
+    'GenOrder2: Main2_order_invariant (for `build2`) holds under the decidable side condition order_ok2 p = true, computed '
+    'from the state after construction: a central bank\'s treasury argument exists before the bank; every call has a plan '
+    'inside the sector-wise reformulation (`uncovered2 p = 0`; excludes a market that supplies itself, an EXT sector '
+    'used as supplier / market / flow end, a missing NET_<currency>); what one sector\'s _GenerateEquations looks up by '
+    'name in another sector is not created by a third one; two sectors of a country never define the same variable in '
+    'competing ways; at most one dividend receiver and at most one gold-standard sector per country; the INTDEP flow of a '
+    'central bank stays inside its currency zone; accumulating equations carry no duplicate summands; every registered '
+    'flow has a plan after equation generation; equations with >= 2 summands have plain factor names. Evaluated on every '
+    'generated well-formed program and permutation, the counts per shape are in extra.order2_model',
 ]
 
 
@@ -147,7 +151,7 @@ def _moved(prog, perm):
     return len(pos), any(i < e for i in pos), any(i > e for i in pos)
 
 
-def extra(ctx, out, quick_n=40, thorough_n=400, gold_cb_flip_mode=None):
+def extra(ctx, out, quick_n=32, thorough_n=400, gold_cb_flip_mode=None):
     """gold_cb_flip_mode: 'disagree' (default, GOLD_CB_FLIP_MODE): `order_case2` on every pair, so a pair with gold_cb_flip
     is reported as a disagreement as long as Perm2.move2 does not cover it; 'count': on those pairs only
     `reform_ok2 p && reform_ok2 p' && outputs_agree2 p p'` is required, `is_admissible2` is evaluated and counted in the
@@ -237,7 +241,9 @@ def extra(ctx, out, quick_n=40, thorough_n=400, gold_cb_flip_mode=None):
             rep = common.coq_show(FAMILY, REQUIRES, 'order_report2 %s %s' % (pm['cp'], pm['cq']))
             out.disagreements.append({'order2_pair': pm['meta'], 'label': pm['label'],
                                       'obligation': 'order_case2 (is_admissible2; order_ok2 p; reform_ok2 p; reform_ok2 p\'; '
-                                      'outputs agree; build2 p ok) = ' + rep[-200:]})
+                                      'outputs agree; build2 p ok) = ' + rep[-200:] +
+                                      (' [gold_cb_flip pair: a late-attached GoldStandardCentralBank changes sides with its '
+                                       'treasury, Perm2.move2 folds / unfolds only CBank]' if pm['flip'] else '')})
             n_dis += 1
     n_dis = 0
     for i in sorted(bad):
@@ -313,7 +319,8 @@ def replay(obj):
     a = gen_main.run_impl(r['prog'])
     b = gen_main.run_impl(r['perm'])
     if a[0] != b[0]:
-        print('replay: one declaration order builds, the other raises: %r vs %r' % (a[:2], b[:2]))
+        say = lambda x: 'raises ' + x[1] if x[0] == 'err' else 'builds (%d rows)' % (len(x[1]) + len(x[2]) + len(x[3]))
+        print('replay: one declaration order builds, the other raises: base order %s, permuted order %s' % (say(a), say(b)))
         return 1
     if a[0] == 'err':
         print('replay: both orders raise (%s, %s); property holds on this input' % (a[1], b[1]))
